@@ -28,6 +28,9 @@ pub struct C09 {
     /// force_open() may be called this many times during the exploration (a breaker that is
     /// tripped by hand or by a health trigger while trial calls are still running)
     pub max_force: usize,
+    /// the executor may leave a caller unpolled while this many ticks pass (a call future that
+    /// was created while the breaker was closed and is first polled much later)
+    pub late_ticks: usize,
 }
 
 const FORCE_OPEN: u8 = 200;
@@ -75,6 +78,9 @@ impl Scenario for C09 {
     }
     fn grid_ms(&self) -> u64 {
         self.grid
+    }
+    fn late_ticks(&self) -> usize {
+        self.late_ticks
     }
     fn init(&self, w: &mut World) -> X {
         let nest = if self.nested > 0 { Some(Nest::new()) } else { None };
